@@ -96,13 +96,14 @@ def run(ctx, scn):
 
                 def do():
                     cm, ov = scopes[t].pop()
-                    if st["v"] == "exc":
+                    if st["v"] in ("exc", "sysexit"):
+                        kind = Boom if st["v"] == "exc" else SystemExit
                         try:
-                            raise Boom("leaving the scope by exception")
-                        except Boom as e:
+                            raise kind("leaving the scope by exception")
+                        except kind as e:
                             try:
-                                cm.__exit__(Boom, e, e.__traceback__)
-                            except Boom:
+                                cm.__exit__(kind, e, e.__traceback__)
+                            except kind:
                                 return False
                             return False
                     else:
@@ -131,6 +132,11 @@ def run(ctx, scn):
                 on(t, lambda: env.set_swapped_values(vals))
             elif cmd == "drop":
                 on(t, lambda: env.set_swapped_values({}))
+            elif cmd == "respawn":
+                # the helper thread ends; a new thread is started (its identifier is usually recycled)
+                worker.stop()
+                worker.t.join(10)
+                worker = Worker()
             else:
                 raise ValueError(cmd)
             views = {"main": view(), "w": worker.call(view)}
